@@ -239,6 +239,17 @@ func (m *tfM) observe(s string, n int64) ([]tfObs, string) {
 	var out []tfObs
 	for _, p := range m.paths {
 		e := m.env(s, n)
+		// values the effect-free loops of the path leave in their variables (a hand-written search for a separator)
+		loopVals := map[string]sval{}
+		base := e.hook
+		e.hook = func(t Term) (sval, bool) {
+			if lv, ok := t.(TLoop); ok {
+				if v, ok := loopVals[key(lv)]; ok {
+					return v, true
+				}
+			}
+			return base(t)
+		}
 		obs := tfObs{Path: p}
 		feasible := true
 		undec := ""
@@ -285,6 +296,21 @@ func (m *tfM) observe(s string, n int64) ([]tfObs, string) {
 					// counted loops are expanded by simulating their header step by step; a count of the receiver that is (re-)evaluated
 					// inside the loop is LIVE: it grows with every Add the body has performed so far
 					loop := st.Loop
+					if loopQuiet(loop) && loop.For != nil && loop.CondT != nil {
+						fin, why := m.c.foldLoop(loop, e.hook, m.c.depth(1300, 12000))
+						if why == "index out of range" || why == "slice bounds out of range" {
+							obs.Panic = why
+							return false
+						}
+						if why != "" {
+							undec = "loop cannot be folded: " + why
+							return false
+						}
+						for o, v := range fin {
+							loopVals[key(TLoop{o, loop.ID})] = v
+						}
+						continue
+					}
 					live := func(t Term) (int64, bool) {
 						if m.v.isCountOfRecv(t) && termEpoch(t) >= loop.HeadEpoch {
 							return n + int64(added), true
@@ -475,7 +501,9 @@ func init() {
 					c.R.Floor("C10.R6", runAs(c, "C10.R6", func(c2 *Ctx) { c05TypeOf(c2, fd) }, nil), 1)
 				}
 			}},
-			{ID: "C10.R7", Doc: "TypeOf, the kind test the navigation relies on, reports the stored kind of every field, containers by their interface (= C12.R3)", Run: func(c *Ctx) { c.R.Floor("C10.R7", runAs(c, "C10.R7", c12R3, func(o *Obligation) bool { return strings.Contains(o.Construct, "TypeOf") }), 2) }},
+			{ID: "C10.R7", Doc: "TypeOf, the kind test the navigation relies on, reports the stored kind of every field, containers by their interface (= C12.R3)", Run: func(c *Ctx) {
+				c.R.Floor("C10.R7", runAs(c, "C10.R7", c12R3, func(o *Obligation) bool { return strings.Contains(o.Construct, "TypeOf") }), 2)
+			}},
 			{ID: "C10.R5", Doc: "PURE: tree-form reads write nothing", Run: func(c *Ctx) {
 				c.R.Floor("C10.R5", pureRule(c, "C10.R5", []string{"(*list).GetTF", "(*list).TypeOfTF", "(*object).GetTF", "(*object).TypeOfTF"}), 4)
 			}},
@@ -653,7 +681,9 @@ func init() {
 				c.R.Floor("C11.R7", n, 4)
 			}},
 			{ID: "C11.R6", Doc: "frame: no two containers share storage, so a write through one path is invisible through every other (= OWN, C09.R2)", Run: func(c *Ctx) { c.R.Floor("C11.R6", ownRule(c, "C11.R6"), 3) }},
-			{ID: "C11.R8", Doc: "TypeOf, which decides reuse-or-replace of an intermediate, reports the stored kind of every field, containers by their interface (= C12.R3)", Run: func(c *Ctx) { c.R.Floor("C11.R8", runAs(c, "C11.R8", c12R3, func(o *Obligation) bool { return strings.Contains(o.Construct, "TypeOf") }), 2) }},
+			{ID: "C11.R8", Doc: "TypeOf, which decides reuse-or-replace of an intermediate, reports the stored kind of every field, containers by their interface (= C12.R3)", Run: func(c *Ctx) {
+				c.R.Floor("C11.R8", runAs(c, "C11.R8", c12R3, func(o *Obligation) bool { return strings.Contains(o.Construct, "TypeOf") }), 2)
+			}},
 			{ID: "C11.R5", Doc: "fluent return of SetTF/UnsetTF (registered ego on every path)", Run: c11Fluent},
 		},
 	})
